@@ -32,21 +32,21 @@ func FamilyName(thorough bool) []*Conv {
 			ID: "name/type_names/" + f, Family: "name", Format: f, Solo: true,
 			Params: "source PFXIn", Results: "PFXOut",
 			Decls: "type PFXIn struct {\n\tA PInt\n\tB *int\n\tC Source\n\tD IntList\n\tE []int\n}\ntype PFXOut struct {\n\tA PInt\n\tB *int\n\tC Source\n\tD IntList\n\tE []int\n}\ntype PInt int\ntype Source struct{ Target int }\ntype IntList []int\n",
-			Spec: &Spec{},
+			Spec:  &Spec{},
 		})
 		// field and parameter names equal to emitted locals
 		out = append(out, &Conv{
 			ID: "name/field_names/" + f, Family: "name", Format: f,
 			Params: "source PFXIn", Results: "(PFXOut, error)",
 			Decls: "type PFXIn struct {\n\tC int\n\tI []int\n\tKey map[string]int\n\tErr *int\n\tSource string\n}\ntype PFXOut struct {\n\tC int\n\tI []int\n\tKey map[string]int\n\tErr *int\n\tSource string\n}\n",
-			Spec: &Spec{},
+			Spec:  &Spec{},
 		})
 		// parameter named like an emitted local
 		out = append(out, &Conv{
 			ID: "name/param_names/" + f, Family: "name", Format: f,
 			Params: "i PFXIn", Results: "(PFXOut, error)",
 			Decls: "type PFXIn struct {\n\tL []int\n\tM map[string][]int\n}\ntype PFXOut struct {\n\tL []int\n\tM map[string][]int\n}\n",
-			Spec: &Spec{},
+			Spec:  &Spec{},
 		})
 	}
 	// enums: unexported members, equal-valued float / big uint64 members
@@ -57,7 +57,7 @@ func FamilyName(thorough bool) []*Conv {
 	out = append(out, &Conv{
 		ID: "name/enum_unexported_member/struct", Family: "name", Format: "struct", Solo: true,
 		Params: "source pfxsrc.Color", Results: "pfxtgt.Color", ConvLines: []string{"enum:unknown @ignore"},
-		Aux: enumAux("package pfxsrc\n\ntype Color int\n\nconst (\n\tRed Color = iota\n\tgreen\n)\n", "package pfxtgt\n\ntype Color int\n\nconst (\n\tRed Color = iota\n\tgreen\n)\n"),
+		Aux:     enumAux("package pfxsrc\n\ntype Color int\n\nconst (\n\tRed Color = iota\n\tgreen\n)\n", "package pfxtgt\n\ntype Color int\n\nconst (\n\tRed Color = iota\n\tgreen\n)\n"),
 		Imports: imports, Spec: &Spec{},
 	})
 	out = append(out, &Conv{
@@ -70,19 +70,19 @@ func FamilyName(thorough bool) []*Conv {
 	out = append(out, &Conv{
 		ID: "name/enum_float_duplicates/struct", Family: "name", Format: "struct", Solo: true,
 		Params: "source pfxsrc.Color", Results: "pfxtgt.Color", ConvLines: []string{"enum:unknown @ignore"},
-		Aux: enumAux("package pfxsrc\n\ntype Color float64\n\nconst (\n\tRed Color = 0.5\n\tCrimson Color = 0.5\n\tBlue Color = 2\n)\n", "package pfxtgt\n\ntype Color float64\n\nconst (\n\tRed Color = 1.5\n\tCrimson Color = 1.5\n\tBlue Color = 3\n)\n"),
+		Aux:     enumAux("package pfxsrc\n\ntype Color float64\n\nconst (\n\tRed Color = 0.5\n\tCrimson Color = 0.5\n\tBlue Color = 2\n)\n", "package pfxtgt\n\ntype Color float64\n\nconst (\n\tRed Color = 1.5\n\tCrimson Color = 1.5\n\tBlue Color = 3\n)\n"),
 		Imports: imports, Spec: &Spec{},
 	})
 	out = append(out, &Conv{
 		ID: "name/enum_uint64_duplicates/struct", Family: "name", Format: "struct", Solo: true,
 		Params: "source pfxsrc.Color", Results: "pfxtgt.Color", ConvLines: []string{"enum:unknown @ignore"},
-		Aux: enumAux("package pfxsrc\n\ntype Color uint64\n\nconst (\n\tRed Color = 18446744073709551615\n\tCrimson Color = 18446744073709551615\n\tBlue Color = 2\n)\n", "package pfxtgt\n\ntype Color uint64\n\nconst (\n\tRed Color = 1\n\tCrimson Color = 1\n\tBlue Color = 3\n)\n"),
+		Aux:     enumAux("package pfxsrc\n\ntype Color uint64\n\nconst (\n\tRed Color = 18446744073709551615\n\tCrimson Color = 18446744073709551615\n\tBlue Color = 2\n)\n", "package pfxtgt\n\ntype Color uint64\n\nconst (\n\tRed Color = 1\n\tCrimson Color = 1\n\tBlue Color = 3\n)\n"),
 		Imports: imports, Spec: &Spec{},
 	})
 	out = append(out, &Conv{
 		ID: "name/enum_int_duplicates/struct", Family: "name", Format: "struct", Solo: true,
 		Params: "source pfxsrc.Color", Results: "pfxtgt.Color", ConvLines: []string{"enum:unknown @ignore"},
-		Aux: enumAux("package pfxsrc\n\ntype Color int\n\nconst (\n\tRed Color = 1\n\tCrimson Color = 1\n\tBlue Color = 2\n)\n", "package pfxtgt\n\ntype Color int\n\nconst (\n\tRed Color = 1\n\tCrimson Color = 1\n\tBlue Color = 3\n)\n"),
+		Aux:     enumAux("package pfxsrc\n\ntype Color int\n\nconst (\n\tRed Color = 1\n\tCrimson Color = 1\n\tBlue Color = 2\n)\n", "package pfxtgt\n\ntype Color int\n\nconst (\n\tRed Color = 1\n\tCrimson Color = 1\n\tBlue Color = 3\n)\n"),
 		Imports: imports, Spec: &Spec{},
 	})
 	// unexported source fields reachable by setting (output in another package)
@@ -108,7 +108,7 @@ func FamilyName(thorough bool) []*Conv {
 	out = append(out, &Conv{
 		ID: "name/same_package_name_twice/struct", Family: "name", Format: "struct", Solo: true,
 		Params: "source pfxa.T", Results: "pfxb.T",
-		Aux: map[string]string{"pfxa/x": "package x\n\ntype T struct {\n\tV int\n\tN *N\n}\ntype N struct{ W string }\n", "pfxb/x": "package x\n\ntype T struct {\n\tV int\n\tN *N\n}\ntype N struct{ W string }\n"},
+		Aux:     map[string]string{"pfxa/x": "package x\n\ntype T struct {\n\tV int\n\tN *N\n}\ntype N struct{ W string }\n", "pfxb/x": "package x\n\ntype T struct {\n\tV int\n\tN *N\n}\ntype N struct{ W string }\n"},
 		Imports: []string{`pfxa "corpus/GRP/pfxa/x"`, `pfxb "corpus/GRP/pfxb/x"`}, Spec: &Spec{},
 	})
 	// generic types
@@ -125,7 +125,7 @@ func FamilyName(thorough bool) []*Conv {
 			ID: "name/empty_named_structs/" + f, Family: "name", Format: f,
 			Params: "source PFXIn", Results: "PFXOut",
 			Decls: "type PFXVa struct{}\ntype PFXVb struct{}\ntype PFXIn struct {\n\tSet map[string]PFXVa\n\tOne PFXVa\n\tL []PFXVa\n\tU map[string]struct{}\n}\ntype PFXOut struct {\n\tSet map[string]PFXVb\n\tOne PFXVb\n\tL []PFXVb\n\tU map[string]struct{}\n}\n",
-			Spec: &Spec{},
+			Spec:  &Spec{},
 		})
 	}
 	// a variables block and a function-format interface sharing one output file and needing the same helper
@@ -133,7 +133,7 @@ func FamilyName(thorough bool) []*Conv {
 		ID: "name/shared_file_across_formats/variable", Family: "name", Format: "variable", Solo: true,
 		Params: "source PFXOuterA", Results: "PFXOuterAT",
 		Decls: "type PFXIn struct{ V int }\ntype PFXInT struct{ V int }\ntype PFXOuterA struct{ I PFXIn }\ntype PFXOuterAT struct{ I PFXInT }\ntype PFXOuterB struct{ I PFXIn }\ntype PFXOuterBT struct{ I PFXInT }\n\n// goverter:converter\n// goverter:output:format function\n// goverter:output:file ./input.gen.go\n// goverter:output:package corpus/GRP\ntype PFXShared interface {\n\tPFXConvB(source PFXOuterB) PFXOuterBT\n}\n",
-		Spec: &Spec{},
+		Spec:  &Spec{},
 	})
 	// output:package given on two levels: the innermost line alone decides path and name; the output directory
 	// already holds a file of the package
